@@ -192,7 +192,7 @@ func (e *Exec) stepInsert(op *Op, mc *model.Coll) {
 			mc.Docs[ids[i]] = nd
 			e.noteIDs(ids[i])
 		}
-		if op.K == "InsertOne" && retID != ids[0] {
+		if op.K == "InsertOne" && !e.inCrashSettle && retID != ids[0] {
 			e.fail([]string{"C12"}, "C12/insertone-id", fmt.Sprintf("InsertOne returned %q but the document's _id is %q", retID, ids[0]), nil)
 			return false
 		}
@@ -385,7 +385,7 @@ func (e *Exec) stepBulk(op *Op, mc *model.Coll) {
 	// expected affected set when it is determined by the statement
 	var detA []string
 	deterministic := true
-	var windowClasses []string
+	var windowClasses, windowClasses2 []string
 	switch {
 	case !windowed || wantN == len(matching):
 		detA = matching
@@ -397,6 +397,7 @@ func (e *Exec) stepBulk(op *Op, mc *model.Coll) {
 		s1 := model.SortedTuples(mc, matching, sortOpts, false)
 		s2 := model.SortedTuples(mc, matching, sortOpts, true)
 		windowClasses = model.Window(s1, skip, limit)
+		windowClasses2 = model.Window(s2, skip, limit)
 		lo, hi := skip, skip+wantN // [lo,hi)
 		cut := (lo > 0 && s1[lo-1] == s1[lo]) || (hi < len(s1) && s1[hi-1] == s1[hi])
 		if cut || strings.Join(s1, "\x00") != strings.Join(s2, "\x00") {
@@ -496,6 +497,37 @@ func (e *Exec) stepBulk(op *Op, mc *model.Coll) {
 			return
 		}
 		A := detA
+		_, tagged := upd["tag"]
+		if !deterministic && !isDelete && !tagged {
+			// the update may leave a document unchanged, so the affected set cannot be
+			// read off the outcome: every changed document must be a matching one
+			// carrying the update, and at most wantN may have changed
+			nChanged := 0
+			matchSet := map[string]bool{}
+			for _, id := range matching {
+				matchSet[id] = true
+			}
+			for _, id := range mc.IDs() {
+				g, ok := got[id]
+				if !ok {
+					e.fail(props, "C03/lost-document", fmt.Sprintf("after %s: document %s disappeared", what, id), feats)
+					return
+				}
+				if val.Equal(g, mc.Docs[id]) {
+					continue
+				}
+				nChanged++
+				if !matchSet[id] || !val.Equal(g, applyUpd(mc.Docs[id], upd)) {
+					e.fail(props, "C03/touched-unmatched", fmt.Sprintf("after %s: %s", what, describeDocDiff(id, mc.Docs[id], g)), feats)
+					return
+				}
+				mc.Docs[id] = g
+			}
+			if nChanged > wantN || len(got) != len(mc.Docs) {
+				e.fail(props, "C03/window-size", fmt.Sprintf("%s: at most %d documents may change, %d did", what, wantN, nChanged), feats)
+			}
+			return
+		}
 		if !deterministic {
 			// derive the affected set from the outcome and validate it
 			A = nil
@@ -529,9 +561,11 @@ func (e *Exec) stepBulk(op *Op, mc *model.Coll) {
 					cls[i] = model.TupleClassKey(model.TupleOf(mc.Docs[id], sortOpts))
 				}
 				wc := append([]string{}, windowClasses...)
+				wc2 := append([]string{}, windowClasses2...)
 				sort.Strings(cls)
 				sort.Strings(wc)
-				if strings.Join(cls, "\x00") != strings.Join(wc, "\x00") {
+				sort.Strings(wc2)
+				if strings.Join(cls, "\x00") != strings.Join(wc, "\x00") && strings.Join(cls, "\x00") != strings.Join(wc2, "\x00") {
 					e.fail(append(props, "C08"), "C03/window-keys", fmt.Sprintf("%s: affected sort keys %v are not the window's %v", what, clip(cls), clip(wc)), feats)
 					return
 				}
@@ -1088,11 +1122,11 @@ func (e *Exec) stepImport(op *Op) {
 	switch {
 	case op.FileKind != "":
 		want = "any"
+	case !fileExists(path) || src == nil:
+		want = "any"
 	case exists:
 		want = "ErrCollectionExist"
 		e.probe("import-existing-name")
-	case !fileExists(path) || src == nil:
-		want = "any"
 	}
 	before := e.snap(true)
 	err := e.invoke(true, func() error { return e.DB.ImportCollection(op.Coll, path) })
